@@ -1,12 +1,14 @@
 package controller
 
 import (
+	"errors"
+
 	"github.com/markusressel/fan2go/internal/configuration"
 	"github.com/markusressel/fan2go/internal/zzv"
 )
 
 //zzv:bound P1 = ladder of absolute rungs through the real RPM poll (measureRpm -> UpdateSimpleMovingAvg): for window n and rung j, any average 0 <= avg <= a_j and a 0-RPM reading give avg' <= a_(j+1), a_0 = 20000, a_(j+1) = a_j*(1-1/n)*(1+1e-9); the chain reaches the stall threshold (< 1 RPM) within 25*n rungs (checked concretely by the harness). n in {1,2,10,20} quick, {1,2,3,5,10,20,30,50} thorough; one solver query per rung
-//zzv:bound P2 = one real control cycle, never-stop fan with RPM sensor, every algorithm, any average below the threshold (avg < 1, not NaN), the request that the same controller computes with a spinning fan equals the previous request ("unchanged") and is below the maximum: the request is raised by exactly one step above the previous one, the floor offset grows, and the average is re-armed to a value from which P1 applies again
+//zzv:bound P2 = one real control cycle, never-stop fan with RPM sensor, every algorithm, any average below the threshold (avg < 1, not NaN), the request that the same controller computes with a spinning fan equals the previous request ("unchanged") and is below the maximum, the curve evaluating normally or failing (its sensor unreadable, last value kept): the request is raised by exactly one step above the previous one, the floor offset grows, and the average is re-armed to a value from which P1 applies again
 //zzv:bound P3 = same, previous request at the maximum: the cycle returns ErrFanStalledAtMaxPwm (regulation of this fan then stops with restore, C03 R3)
 //zzv:bound P4 = file and cmd fans: the average is the last reading, so one 0-RPM poll puts it below the threshold
 //zzv:outside prior averages above 20000 RPM; windows above 50; the wall-clock pacing of polls and cycles (tickers)
@@ -71,6 +73,10 @@ func zzStallCycle(kind int) {
 		zzHwmonLimits(e)
 	}
 	e.zzController(zzLoop(loop), zzv.Int("curveValue"), 2)
+	if zzv.Choice("curveCannotBeEvaluated", 2) == 1 {
+		// the curve's sensor is unreadable in these cycles: the curve reports an error and its last value
+		e.curve.err = errors.New("zz: sensor unreadable")
+	}
 	c := e.c
 	l := zzRange("lastSetPwm", 0, 255)
 	off := zzRange("offset", 0, 255)
